@@ -28,7 +28,7 @@ def run(ctx):
     ctx.distinct += r["configs"] * len(fam)
     ctx.samples.append(r["sample"])
     for v in r["violations"]:
-        ctx.violation("C06: " + v["what"], {"kind": "matrix", "scenario": v["scenario"], "configs": v["configs"]})
+        ctx.violation("C06: " + v["what"], {"kind": "matrix", "scenario": next((f for f in fam if f["name"] == v["scenario"]), v["scenario"]), "configs": v["configs"]})
     # controlled schedules: the observable of one block must not depend on the interleaving either
     for workers in (1, 2, 3):
         rr, o, a = se.controlled(ctx, ["rmw3", "dd3", "t_nonce_gap_dup"], ctx.n(25, 1500), workers=workers, tag=f"w{workers}")
